@@ -35,6 +35,28 @@ const LINKS_SIZE: usize = std::mem::size_of::<Links>();
 /// Maximum node size (with full tower)
 const MAX_NODE_SIZE: usize = std::mem::size_of::<Node>() + (MAX_HEIGHT - 1) * LINKS_SIZE;
 
+/// Arena bytes taken by the head and tail sentinels of an empty skiplist (offset 0 is reserved).
+const EMPTY_ARENA_SIZE: u64 = 1 + 2 * (MAX_NODE_SIZE as u64 + 7);
+
+/// Whether entries with the given (key, value) lengths, inserted in this order, can fit at all in
+/// an empty skiplist over an arena of `capacity` bytes: a node takes at least a tower of height
+/// one, and the arena wants room for a full tower at the moment it allocates a node.
+pub(crate) fn fits_empty_arena(
+	capacity: usize,
+	entries: impl Iterator<Item = (usize, usize)>,
+) -> bool {
+	let min_node_size = (MAX_NODE_SIZE - (MAX_HEIGHT - 1) * LINKS_SIZE) as u64;
+	let mut used = EMPTY_ARENA_SIZE;
+	for (key_len, value_len) in entries {
+		let data = key_len as u64 + value_len as u64 + 7;
+		if used + MAX_NODE_SIZE as u64 + data > capacity as u64 {
+			return false;
+		}
+		used += min_node_size + data;
+	}
+	true
+}
+
 /// Precomputed probabilities for random height generation
 fn probabilities() -> &'static [u32; MAX_HEIGHT] {
 	static PROBABILITIES: std::sync::OnceLock<[u32; MAX_HEIGHT]> = std::sync::OnceLock::new();
